@@ -95,12 +95,6 @@ impl PlainYearMonth {
             Unit::Month,
         )?;
 
-        // 6. If CompareISODate(yearMonth.[[ISODate]], other.[[ISODate]]) = 0, then
-        if self.iso.year == other.iso.year && self.iso.month == other.iso.month {
-            // a. Return ! CreateTemporalDuration(0, 0, 0, 0, 0, 0, 0, 0, 0, 0).
-            return Ok(Duration::default());
-        }
-
         // 7. Let thisFields be ISODateToFields(calendar, yearMonth.[[ISODate]], year-month).
         // 8. Set thisFields.[[Day]] to 1.
         // 9. Let thisDate be ? CalendarDateFromFields(calendar, thisFields, constrain).
@@ -109,8 +103,28 @@ impl PlainYearMonth {
         // 12. Let otherDate be ? CalendarDateFromFields(calendar, otherFields, constrain).
         // 13. Let dateDifference be CalendarDateUntil(calendar, thisDate, otherDate, settings.[[LargestUnit]]).
         // 14. Let yearsMonthsDifference be ! AdjustDateDurationRecord(dateDifference, 0, 0).
-        let this_iso = IsoDate::new_unchecked(self.iso.year, self.iso.month, 1);
-        let other_iso = IsoDate::new_unchecked(other.iso.year, other.iso.month, 1);
+        let first_day = |year_month: &Self| -> TemporalResult<IsoDate> {
+            if year_month.calendar().is_iso() {
+                return Ok(IsoDate::new_unchecked(
+                    year_month.iso.year,
+                    year_month.iso.month,
+                    1,
+                ));
+            }
+            // The first day of a calendar month is not the first day of an ISO month.
+            let fields = PartialDate::try_from_year_month(year_month)?;
+            let date = year_month
+                .calendar()
+                .date_from_partial(&fields, ArithmeticOverflow::Constrain)?;
+            Ok(date.iso)
+        };
+        let this_iso = first_day(self)?;
+        let other_iso = first_day(other)?;
+        // 6. If CompareISODate(yearMonth.[[ISODate]], other.[[ISODate]]) = 0, then
+        if this_iso == other_iso {
+            // a. Return ! CreateTemporalDuration(0, 0, 0, 0, 0, 0, 0, 0, 0, 0).
+            return Ok(Duration::default());
+        }
         let result = self
             .calendar()
             .date_until(&this_iso, &other_iso, resolved.largest_unit)?;
